@@ -127,6 +127,7 @@ func runCli(vec map[string]interface{}) map[string]interface{} {
 	}
 	deadline := time.Duration(gIntD(vec, "deadline_s", 20)) * time.Second
 	outfile := gStr(vec, "outfile")
+	mainRun := false
 	invoke := func(args []interface{}, env map[string]interface{}, stdinName string, strace map[string]interface{}) (binResult, string) {
 		a := substArgs(dir, args)
 		var stdin []byte
@@ -141,17 +142,23 @@ func runCli(vec map[string]interface{}) map[string]interface{} {
 		if sf := gStr(vec, "stdout_file"); sf != "" {
 			stdoutPath = filepath.Join(dir, sf)
 		}
+		if sm := gStr(vec, "stdout_mode"); sm != "" && mainRun {
+			stdoutPath = "@" + sm // "slow" / "closed" (the run under test only, not the base run)
+		}
 		if strace != nil {
 			target := filepath.Join(dir, gStr(strace, "file"))
 			sargs := []string{"-f", "-o", "/dev/null", "-e", "trace=write", "-e",
 				"inject=write:error=ENOSPC:when=" + itoa(gInt(strace, "k")), "-P", target, bin}
 			sargs = append(sargs, a...)
 			res = runBinaryTo(stdoutPath, "strace", stdin, envList(env), deadline, sargs...)
+		} else if cpus := gStr(vec, "taskset"); cpus != "" && mainRun {
+			// restrict the processors the process may run on (runtime.NumCPU follows the affinity mask, GOMAXPROCS does not change it)
+			res = runBinaryTo(stdoutPath, "taskset", stdin, envList(env), deadline, append([]string{"-c", cpus, bin}, a...)...)
 		} else {
 			res = runBinaryTo(stdoutPath, bin, stdin, envList(env), deadline, a...)
 		}
 		out := res.Stdout
-		if stdoutPath != "" {
+		if stdoutPath != "" && !strings.HasPrefix(stdoutPath, "@") {
 			b, _ := os.ReadFile(stdoutPath)
 			out = string(b)
 		}
@@ -186,6 +193,7 @@ func runCli(vec map[string]interface{}) map[string]interface{} {
 	runs := []interface{}{}
 	first := ""
 	distinct := map[string]bool{}
+	mainRun = true
 	for i := 0; i < reps; i++ {
 		r, o := invoke(gList(vec, "args"), envOf(vec), gStr(vec, "stdin"), strace)
 		if i == 0 {
